@@ -287,6 +287,7 @@ class Verifier:
         jobs = {}
         cfg = self.config_for(c, fname, {o: dict(lc, mode=lc.get('mode', 'summary')) for o, lc in loops.items()}, c.kw.get('config'))
         ex = self.new_executor(cfg)
+        ex.run_generators = bool(cfg.hooks.get('run_generators'))
         ex.side = which
         ex.loop_jobs = jobs
         ex.cur_func_node, ex.cur_func_name = node, fname
